@@ -296,7 +296,7 @@ class Counter(MetricWrapperBase):
     def reset(self) -> None:
         """Reset the counter to zero. Use this when a logical process restarts without restarting the actual python process."""
         self._raise_if_not_observable()
-        self._value.set(0)
+        self._value.set(0.0)
         self._created = time.time()
 
     def count_exceptions(self, exception: Union[Type[BaseException], Tuple[Type[BaseException], ...]] = Exception) -> ExceptionCounter:
